@@ -334,6 +334,10 @@ def run(run, model, proof):
             check_cli_hex(run, model, rng)
         if i % 7 == 0 and d:
             check_dump_file(run, model, rng, d)
+        if i % 9 == 0:
+            # rows that repeat (zero fill, 0xFF fill, a pattern): equal neighbouring lines in the format without an address column
+            fill = rng.choice([b"\x00", b"\xff", b"\x20", bytes(range(16))])
+            check_dump_file(run, model, rng, (gen_bytes(rng, rng.randrange(0, 20)) + fill * rng.choice([16, 33, 48, 64]))[:rng.randrange(40, 200)] + fill * 32)
     if thorough:
         for n in (65536, 65537, 70000, 200000):
             d = gen_bytes(rng, n)
